@@ -99,6 +99,21 @@ func c09Flatten(r gts.Region) []gts.Segment {
 	return nil
 }
 
+// c09Shift moves every coordinate of a region (nested collections included) by off.
+func c09Shift(r gts.Region, off int) gts.Region {
+	switch v := r.(type) {
+	case gts.Segment:
+		return gts.Segment{v[0] + off, v[1] + off}
+	case gts.Regions:
+		out := make(gts.Regions, len(v))
+		for i, x := range v {
+			out[i] = c09Shift(x, off)
+		}
+		return out
+	}
+	panic(fmt.Sprintf("harness: unknown region type %T", r))
+}
+
 func c09Check(c c09Case) *Violation {
 	cover := c09Cover(c)
 	var min, min2 []gts.Segment
@@ -177,6 +192,59 @@ func c09Check(c c09Case) *Violation {
 	for p := 0; p < c.N; p++ {
 		if got[p]+inv[p] != 1 {
 			return viol("invert-partition", "position %d covered %d times by Minimize %v and %d times by InvertLinear %v", p, got[p], min, inv[p], lin)
+		}
+	}
+	// --- translation: the same collection far from the origin (coordinates around 2^31, 2^32, 2^53, 2^62) minimizes to
+	// the same segments moved by the same amount, and its linear inversion is the moved inversion plus the stretch in
+	// front of it
+	for _, off := range []int{1 << 31, 1<<32 + 7, 1 << 53, 1<<62 - c.N/2 - 1, 1<<62 + 1} {
+		var shMin []gts.Segment
+		var shLin []gts.Region
+		if pi := guard(func() {
+			shMin = gts.Minimize(c09Shift(c.build(nil, nil), off))
+			shLin = gts.InvertLinear(c09Shift(c.build(nil, nil), off), c.N+off)
+		}); pi != nil {
+			return panicViolation(fmt.Sprintf("Minimize/InvertLinear of the collection moved by %d", off), pi)
+		}
+		wantMin := make([]gts.Segment, len(min))
+		for i, sg := range min {
+			wantMin[i] = gts.Segment{sg[0] + off, sg[1] + off}
+		}
+		if fmt.Sprint(shMin) != fmt.Sprint(wantMin) {
+			return viol("translation", "Minimize of the collection moved by %d gives %v, want %v (unmoved: %v)", off, shMin, wantMin, min)
+		}
+		// a zero-length segment at position 0 lies on the edge of [0,n) and inside [0,n+off): it separates pieces only
+		// in the moved collection, so the inversions are not compared then
+		siteAtZero := false
+		for _, r := range c.Regions {
+			for _, sg := range r.Segs {
+				if sg[0] == 0 && sg[1] == 0 {
+					siteAtZero = true
+				}
+			}
+		}
+		if siteAtZero {
+			continue
+		}
+		var wantLin []gts.Segment
+		lead := gts.Segment{0, off}
+		for i, r := range lin {
+			sg := r.(gts.Segment)
+			if i == 0 && sg[0] == 0 {
+				lead[1] = sg[1] + off
+				continue
+			}
+			wantLin = append(wantLin, gts.Segment{sg[0] + off, sg[1] + off})
+		}
+		wantLin = append([]gts.Segment{lead}, wantLin...)
+		var gotLin []gts.Segment
+		for _, r := range shLin {
+			if sg, ok := r.(gts.Segment); ok {
+				gotLin = append(gotLin, sg)
+			}
+		}
+		if fmt.Sprint(gotLin) != fmt.Sprint(wantLin) {
+			return viol("translation", "InvertLinear of the collection moved by %d within [0,%d) gives %v, want %v (unmoved: %v)", off, c.N+off, shLin, wantLin, lin)
 		}
 	}
 	// --- InvertCircular: same residues; end pieces merged across the origin
